@@ -60,6 +60,9 @@ def cells(tier):
                 out.append(Cell(pid=PID, cid='C08/truncated/%s/%s%s' % (doc, part, '/bytes' if by else ''),
                                 harness='h_classify:truncation_cell', params=P, sym=[('n', 'int')], pre=pre,
                                 timeout=max(T, 120), cost=40))
+    from .h_classify import BAD_DOCS
+    out.append(Cell(pid=PID, cid='C08/malformed/str-bytes-file-agree', harness='h_classify:bad_sources_cell', params={},
+                    sym=[('i', 'int')], pre=['0 <= i < %d' % len(BAD_DOCS)], stubs=(), timeout=T, cost=3, example={'i': 0}))
     # "the same from a file, a string or bytes": real files and the real parser on six concrete encodings
     # (document picked by a solver-chosen index: enumeration by forking); shared with C18
     from .h_collect import SOURCE_DOCS
